@@ -25,7 +25,7 @@ import (
 )
 
 func init() {
-	pbt.Describe("cases = module id (mostly a valid path with matching canonical version incl. /vN, gopkg.in, +incompatible, pseudo-versions; sometimes invalid, mismatched or non-canonical) x a file list of 0-25 entries whose names come from a tree-shaped pool (shared directory prefixes so that vendor, nested-module, file/directory clash and case-fold interactions actually occur; unclean, absolute, reserved, Unicode and duplicate names mixed in) with modes regular/symlink/dir/device/pipe, honest small contents, a root go.mod of 15 kinds (absent, go <1.24, >=1.24, no go line, unknown directives, syntax errors), and optional header-only huge sizes that make the list fail the check. Oracle: Create succeeds iff the id is valid and the file check reports no error; on success CheckZip reports no invalid entry and no error, every entry name is prefix + clean valid path, no two names are equal under case folding, go.mod only at the root in lower case, Unzip into a fresh directory succeeds, and the extracted tree (walked by the harness) is exactly {(p, content(p)) : p in CheckFiles.Valid}, both inclusions, byte for byte; CheckFiles.Valid/Omitted/Invalid equal the reference classifier. Non-trivial: Create succeeded with >=2 files and at least one input entry was omitted or invalid-by-collision; or Create failed for a reason other than the module id. Distinct by JSON rendering. 6% of the lists contain one file that fails while being read (I/O error after half of its content) or cannot be opened: if that file is one the archive must contain, Create must not succeed.",
+	pbt.Describe("cases = module id (mostly a valid path with matching canonical version incl. /vN, gopkg.in, +incompatible, pseudo-versions; sometimes invalid, mismatched or non-canonical) x a file list of 0-25 entries whose names come from a tree-shaped pool (shared directory prefixes so that vendor, nested-module, file/directory clash and case-fold interactions actually occur; unclean, absolute, reserved, Unicode and duplicate names mixed in) with modes regular/symlink/dir/device/pipe, honest small contents, a root go.mod of 15 kinds (absent, go <1.24, >=1.24, no go line, unknown directives, syntax errors), and optional header-only huge sizes that make the list fail the check. Oracle: Create succeeds iff the id is valid and the file check reports no error; on success CheckZip reports no invalid entry and no error, every entry name is prefix + clean valid path, no two names are equal under case folding, go.mod only at the root in lower case, Unzip into a fresh directory succeeds, and the extracted tree (walked by the harness) is exactly {(p, content(p)) : p in CheckFiles.Valid}, both inclusions, byte for byte; CheckFiles.Valid/Omitted/Invalid equal the reference classifier. Non-trivial: Create succeeded with >=2 files and at least one input entry was omitted or invalid-by-collision; or Create failed for a reason other than the module id. Distinct by JSON rendering. 6% of the lists contain one file that fails while being read (I/O error after half of its content) or cannot be opened: if that file is one the archive must contain, Create must not succeed. 3% of the lists hold one file of 32 KiB+1 ... 1 MiB, mostly highly compressible.",
 		"zipref reference classifier (from the package documentation and the anchored decision order)", "path elements stay below 200 bytes (file-system limit, not a zip rule)", "files report their true size, except header-only sizes above the limits, which always make the list fail the check")
 }
 
@@ -33,6 +33,21 @@ func TestMain(m *testing.M) { pbt.Main(m) }
 
 func genCase(t *rapid.T) zipgen.ListCase {
 	c := zipgen.GenList(t, true)
+	if gen.Chance(t, 3, "bigfile") {
+		// one large file (beyond copy buffers of 32 KiB ... 1 MiB), usually highly compressible
+		n := []int{32769, 65537, 131073, 262144, 262145, 300000, 700000, 1 << 20}[gen.Uniform(t, 8, "bigsize")]
+		b := make([]byte, n)
+		x, comp := uint32(n), gen.Chance(t, 70, "bigcomp")
+		for i := range b {
+			if comp {
+				b[i] = byte('a' + i%3)
+			} else {
+				x = x*1664525 + 1013904223
+				b[i] = byte(x >> 24)
+			}
+		}
+		c.Entries = append(c.Entries, zipgen.Entry{Name: "big/table.go", Mode: "file", Content: b, Size: -1})
+	}
 	if gen.Chance(t, 6, "iofail") && len(c.Entries) > 0 {
 		// one file cannot be read to its end, or cannot be opened at all (not the root go.mod, which the file
 		// check itself reads leniently)
@@ -102,7 +117,7 @@ func checkFilesVsModel(c zipgen.ListCase) (modzip.CheckedFiles, zipref.Report, *
 
 func check(c zipgen.ListCase) pbt.Result {
 	r := pbt.Result{}
-	if !zipgen.OKList(c) {
+	if !zipgen.OKListBig(c, 1<<20) {
 		r.Skip = true
 		return r
 	}
